@@ -71,7 +71,16 @@ func (n *verifRaftNode) ReadIndex(ctx context.Context, rctx []byte) error       
 func (n *verifRaftNode) Status() etcdRaft.Status                                      { return etcdRaft.Status{} }
 func (n *verifRaftNode) ReportUnreachable(id uint64)                                  {}
 func (n *verifRaftNode) ReportSnapshot(id uint64, status etcdRaft.SnapshotStatus)     {}
-func (n *verifRaftNode) Stop()                                                        {}
+func (n *verifRaftNode) Stop() {
+	// a stopped raft node delivers nothing any more
+	for {
+		select {
+		case <-n.readyc:
+		default:
+			return
+		}
+	}
+}
 
 type verifServer struct {
 	db        *badger.DB
